@@ -15,9 +15,12 @@ Theorem C07_conflicts_resolved_in_sorted_order : imports_sorted_before_names = t
 Proof. vm_compute. reflexivity. Qed.
 
 (* The conflict loop  for conflict(current) { current = preferred + modifier; modifier++ }
-   terminates (within one more step than there are names) on a name no import uses yet. *)
+   terminates (within one more step than there are names) on a name no import uses yet -- or on the
+   empty name, which binds nothing (dot and anonymous imports, the cgo import "C") and conflicts with
+   nothing. *)
 Theorem C07_conflict_loop_finds_a_free_name :
-  forall names pref, mem (find_free (S (List.length names)) names pref pref 1) names = false.
+  forall names pref, let r := find_free (S (List.length names)) names pref pref 1 in
+                     (negb (String.eqb r "") && mem r names) = false.
 Proof. exact find_free_is_free. Qed.
 
 (* Names bound by ordinary imports (not dot, not blank) are pairwise distinct, for every set of
